@@ -111,7 +111,8 @@ pub struct HubSc {
     pub kill: Option<(u32, u32, u8)>,
     /// files outside ROOT (sentinels), for C11
     pub sentinels: bool,
-    /// make the nth op of kind HUB_FAULT_KINDS[k] of server i fail (errno by nth % 3)
+    /// make the nth op of kind HUB_FAULT_KINDS[k] of server i fail (errno by nth % 3);
+    /// k == HUB_FAULT_KINDS.len(): the nth file write of server i is a short write
     #[serde(default)]
     pub io_fault: Option<(u32, u32, u8)>,
 }
@@ -521,6 +522,12 @@ pub fn build_world(sc: &HubSc) -> (World, BTreeMap<String, Vec<u8>>) {
 
 pub fn run_hub(sc: &HubSc, hook: Option<StepHook>) -> HubRun {
     let (w, init) = build_world(sc);
+    run_hub_in(sc, w, init, hook)
+}
+
+/// Like `run_hub`, but in a given world (e.g. the one an earlier wave of servers left behind):
+/// the new processes get the same process ids as the earlier wave, as after a pid wrap-around.
+pub fn run_hub_in(sc: &HubSc, w: World, init: BTreeMap<String, Vec<u8>>, hook: Option<StepHook>) -> HubRun {
     let world0 = w.clone();
     let mut cfg = RunCfg::default();
     cfg.seed = sc.seed;
@@ -536,8 +543,13 @@ pub fn run_hub(sc: &HubSc, hook: Option<StepHook>) -> HubRun {
         });
     }
     if let Some((srv, nth, k)) = sc.io_fault {
-        let errno = [copia_simworld::fs::EIO, copia_simworld::fs::ENOSPC, copia_simworld::fs::EACCES][nth as usize % 3];
-        cfg.faults.push(Fault::FailOp { target: ProcSel::Role(format!("serve{srv}")), nth, kind: HUB_FAULT_KINDS[k as usize % HUB_FAULT_KINDS.len()], errno });
+        if k as usize == HUB_FAULT_KINDS.len() {
+            // index one past the error kinds: a short write (legal write(2) behaviour, not an error)
+            cfg.faults.push(Fault::ShortWrite { target: ProcSel::Role(format!("serve{srv}")), nth });
+        } else {
+            let errno = [copia_simworld::fs::EIO, copia_simworld::fs::ENOSPC, copia_simworld::fs::EACCES][nth as usize % 3];
+            cfg.faults.push(Fault::FailOp { target: ProcSel::Role(format!("serve{srv}")), nth, kind: HUB_FAULT_KINDS[k as usize % HUB_FAULT_KINDS.len()], errno });
+        }
     }
     let sim = Sim::new(w, cfg, resolver());
     if let Some(h) = hook {
